@@ -420,8 +420,9 @@ type ruleData struct {
 	flags  filter
 	action action
 
-	allSyscalls bool
-	syscalls    []uint32
+	allSyscalls  bool
+	allRequested bool // "all" was given explicitly with -S
+	syscalls     []uint32
 
 	fields     []field
 	values     []uint32
@@ -582,9 +583,9 @@ func (r *ruleData) getAction() (string, error) {
 func addSyscall(rule *ruleData, syscall string) error {
 	if syscall == "all" {
 		rule.allSyscalls = true
+		rule.allRequested = true
 		return nil
 	}
-	rule.allSyscalls = false
 
 	syscallNum, err := strconv.Atoi(syscall)
 	if err != nil {
@@ -612,6 +613,11 @@ func addSyscall(rule *ruleData, syscall string) error {
 		}
 	}
 
+	if rule.allRequested {
+		// "all" was asked for as well: every syscall is already selected.
+		return nil
+	}
+	rule.allSyscalls = false
 	rule.syscalls = append(rule.syscalls, uint32(syscallNum))
 	return nil
 }
